@@ -37,6 +37,16 @@ class PyCore:
         )
         self.observer = rope.base.resourceobserver.FilteredResourceObserver(observer)
         self.project.add_observer(self.observer)
+        # A new module or package can make an import resolvable that was
+        # not; no cached module reports that, so what was concluded so far
+        # has to be forgotten
+        created_observer = rope.base.resourceobserver.ResourceObserver(
+            created=self._forget_concluded_data, validate=self._forget_concluded_data
+        )
+        self.project.add_observer(created_observer)
+
+    def _forget_concluded_data(self, resource):
+        self.module_cache.forget_all_data()
 
     def _init_automatic_soa(self):
         if not self.automatic_soa:
